@@ -115,3 +115,545 @@ def impl(case):
         return dict(positions=positions, ny=ny, arg_names=names, declared=declared, y0=y0, outs=outs)
     finally:
         pyr.reset_pyrates()
+
+# ---------------------------------------------------------------------------------------------- generator
+POOL = ["r", "rr", "r_in", "r_in0", "m_in2", "weight", "x_v1", "source", "a_in0", "x", "z", "v", "u", "a", "b", "k", "m",
+        "w", "x_v2", "a_v1", "weight_in0", "q", "rin"]
+NODE_NAMES = ["A", "B", "T", "n0", "n1", "p", "exc", "inh", "n_1", "pop"]
+CIRC_NAMES = ["c1", "c2", "g", "sub", "L", "c_3"]
+OP_NAMES = ["op", "sop", "top", "rate", "syn", "op_1", "o2", "lin"]
+
+def q4(rng, lo=-8, hi=8, nz=False):
+    while True:
+        k = rng.randint(lo, hi)
+        if k or not nz:
+            return str(Fr(k, 4))
+
+def gen_poly(rng, names, must=None, maxdeg=3):
+    """polynomial with distinct monomials over `names`; coefficients k/4; degree <= maxdeg"""
+    nm = rng.randint(1, 3)
+    monos, seen = [], set()
+    for i in range(nm):
+        d = rng.choice([0, 1, 1, 1, 1, 2, 2, 3]) if names else 0
+        d = min(d, maxdeg)
+        facs = sorted(rng.choice(names) for _ in range(d))
+        if must and i == 0:
+            facs = sorted(([must] + facs)[:max(1, min(len(facs) + 1, maxdeg))])
+        if tuple(facs) in seen:
+            continue
+        seen.add(tuple(facs))
+        c = q4(rng, nz=True)
+        if abs(Fr(c)) in {abs(Fr(m[0])) for m in monos}:
+            continue
+        monos.append([c, facs])
+    rng.shuffle(monos)
+    return monos
+
+def gen_ops(rng, n_ops):
+    """operator templates op_1..op_M: the inputs of op_j may be named after the outputs of op_i, i<j, so that every
+    subset of them forms an acyclic operator graph; output names may coincide (several producers of one input)."""
+    names = rng.sample(POOL, len(POOL))
+    onames = rng.sample(OP_NAMES, n_ops)
+    ops, outs = {}, []
+    free_pool = [x for x in names]
+    out_names_all = []
+    for j in range(n_ops):
+        # output name: sometimes the same as an earlier operator's output (two producers)
+        if outs and rng.random() < 0.2:
+            out = rng.choice(outs)
+        else:
+            out = rng.choice([x for x in names if x not in out_names_all])
+        out_names_all.append(out)
+        used = {out}
+        n_in = rng.choice([0, 1, 1, 2, 2, 3]) if j == 0 else rng.choice([1, 1, 2, 2, 3])
+        inputs = []
+        cand_prev = [o for o in outs if o != out]
+        for _ in range(n_in):
+            if cand_prev and rng.random() < 0.6:
+                nm = rng.choice(cand_prev)
+            else:
+                nm = rng.choice(names)
+            if nm in used:
+                continue
+            used.add(nm); inputs.append(nm)
+        extra_sv = []
+        for _ in range(rng.choice([0, 0, 1, 1, 2])):
+            nm = rng.choice(names)
+            if nm not in used:
+                used.add(nm); extra_sv.append(nm)
+        consts = []
+        for _ in range(rng.choice([0, 1, 1, 2])):
+            nm = rng.choice(names)
+            if nm not in used:
+                used.add(nm); consts.append(nm)
+        lhs_vars = [out] + extra_sv
+        kinds = {}
+        for i, v in enumerate(lhs_vars):
+            kinds[v] = "state" if rng.random() < 0.6 else "alg"
+        if all(k == "alg" for k in kinds.values()) and rng.random() < 0.7:
+            kinds[rng.choice(lhs_vars)] = "state"
+        # algebraic variables: acyclic dependencies inside the operator (hidden order)
+        algs = [v for v in lhs_vars if kinds[v] == "alg"]
+        rng.shuffle(algs)
+        eqs = []
+        for v in lhs_vars:
+            if kinds[v] == "state":
+                avail = lhs_vars + inputs + consts
+                eqs.append([v, True, gen_poly(rng, avail, must=rng.choice(inputs) if inputs and rng.random() < 0.7 else None)])
+            else:
+                avail = [s for s in lhs_vars if kinds[s] == "state"] + inputs + consts + algs[:algs.index(v)]
+                eqs.append([v, False, gen_poly(rng, avail, must=rng.choice(inputs) if inputs and rng.random() < 0.7 else None, maxdeg=2)])
+        rng.shuffle(eqs)
+        decl = [[v, kinds[v], q4(rng)] for v in lhs_vars] + [[v, "input", q4(rng)] for v in inputs] + [[v, "const", q4(rng, nz=True)] for v in consts]
+        rng.shuffle(decl)
+        ops[onames[j]] = dict(vars=decl, eqs=eqs, out=out)
+        outs.append(out)
+    # the operators were built in dependency order; the dict keeps that order (nodes pick their own declaration order)
+    return ops
+
+def gen_tree(rng, ops, depth, n_nodes):
+    onames = list(ops)
+    def node(name):
+        k = rng.randint(1, min(3, len(onames)))
+        chosen = rng.sample(onames, k)
+        nops = []
+        for on in chosen:
+            ov = {}
+            for vn, kind, val in ops[on]["vars"]:
+                if rng.random() < 0.25:
+                    ov[vn] = q4(rng, nz=(kind == "const"))
+            nops.append([on, ov])
+        return [name, nops]
+    node_names = rng.sample(NODE_NAMES, len(NODE_NAMES))
+    circ_names = CIRC_NAMES
+    def mk(level, n):
+        if level == depth:
+            return dict(nodes=[node(nm) for nm in rng.sample(node_names, n)], subs=[], edges=[])
+        k = rng.randint(1, min(3, n))
+        sizes = [1] * k
+        for _ in range(n - k):
+            sizes[rng.randrange(k)] += 1
+        return dict(nodes=[], subs=[[nm, mk(level + 1, s)] for nm, s in zip(rng.sample(circ_names, k), sizes)], edges=[])
+    return mk(0, n_nodes)
+
+def tree_nodes(c, prefix=""):
+    """node paths in the order of get_nodes(['all'])"""
+    out = []
+    for nm, nops in c["nodes"]:
+        out.append((prefix + nm, nops))
+    for sn, sc in c["subs"]:
+        out += tree_nodes(sc, prefix + sn + "/")
+    return out
+
+def tree_edges(c, prefix=""):
+    """edges with absolute paths in the order of collect_edges"""
+    out = [[prefix + s, prefix + t, w] for s, t, w in c["edges"]]
+    for sn, sc in c["subs"]:
+        out += tree_edges(sc, prefix + sn + "/")
+    return out
+
+def add_edge(c, s, t, w, rng):
+    """declare the edge at a random circuit level that contains both end points"""
+    lvl = c
+    while True:
+        subs = dict((a, b) for a, b in lvl["subs"])
+        hs, ht = s.split("/")[0], t.split("/")[0]
+        if lvl["subs"] and hs == ht and hs in subs and rng.random() < 0.7:
+            lvl = subs[hs]; s = s.split("/", 1)[1]; t = t.split("/", 1)[1]
+        else:
+            break
+    lvl["edges"].append([s, t, w])
+
+def gen_case(rng, mode="valid"):
+    """mode: valid (satisfies the guards) | d3 (two variables of one source node into one target variable)
+             | d22 (an edge whose source and target variable have the same name)"""
+    for _ in range(200):
+        n_ops = rng.randint(1, 4)
+        ops = gen_ops(rng, n_ops)
+        depth = rng.choice([0, 0, 1, 1, 2])
+        n_nodes = rng.randint(1, 5)
+        tree = gen_tree(rng, ops, depth, n_nodes)
+        nodes = tree_nodes(tree)
+        srcs, tgts = [], []
+        for path, nops in nodes:
+            for on, _ in nops:
+                for vn, kind, _ in ops[on]["vars"]:
+                    if kind in ("state", "alg"):
+                        srcs.append((path, on, vn))
+                    elif kind == "input":
+                        tgts.append((path, on, vn))
+        if not tgts or not srcs:
+            continue
+        n_e = rng.choice([0, 1, 2, 2, 3, 3, 4, 5, 6, 8])
+        chosen = {}
+        edges = []
+        for _ in range(n_e):
+            t = rng.choice(tgts)
+            if edges and rng.random() < 0.3:
+                s, t = rng.choice(edges)            # a parallel edge
+            elif rng.random() < 0.15:
+                cand = [s for s in srcs if s[0] == t[0]]   # self loop
+                s = rng.choice(cand) if cand else rng.choice(srcs)
+            else:
+                s = rng.choice(srcs)
+            if mode != "d22" and s[2] == t[2]:
+                continue
+            key = (t, s[0])
+            if mode != "d3" and chosen.get(key, s) != s:
+                s = chosen[key]
+            chosen.setdefault(key, s)
+            edges.append((s, t))
+        if mode == "d3":
+            ok = False
+            for s, t in list(edges):
+                alt = [x for x in srcs if x[0] == s[0] and x != s and x[2] != t[2]]
+                if alt:
+                    edges.insert(rng.randrange(len(edges) + 1), (rng.choice(alt), t)); ok = True
+                    break
+            if not ok:
+                continue
+        if mode == "d22":
+            cand = [(s, t) for s in srcs for t in tgts if s[2] == t[2]]
+            if not cand:
+                continue
+            edges.insert(rng.randrange(len(edges) + 1), rng.choice(cand))
+        for s, t in edges:
+            add_edge(tree, "/".join(s), "/".join(t), q4(rng, nz=True) if rng.random() < 0.85 else "1", rng)
+        case = dict(ops=ops, tree=tree, points=[], mode=mode)
+        if not py_wf(case):
+            continue
+        if mode != "d22" and not py_guard_names(case):
+            continue
+        if mode == "d22" and py_guard_names(case):
+            continue
+        if not py_guard_labels(case):
+            continue
+        if (mode == "d3") == py_guard_d3(case):
+            continue
+        svars = [("/".join(s)) for s in srcs if kind_of(case, s) == "state"]
+        pvars = param_vars(case)
+        pts = []
+        for i in range(3):
+            st = {v: q4(rng, -6, 6) for v in svars}
+            pts.append(dict(state=st, params={}))
+            pts.append(dict(state=st, params={v: q4(rng, -6, 6) for v in pvars}))
+        case["points"] = pts
+        if not exact_ok(case):
+            continue
+        return case
+    raise RuntimeError("generator could not produce a case")
+
+# ---------------------------------------------------------------------------------------------- python reference
+# (used by the generator only: well-formedness, exactness filter, non-triviality; the deciding comparison is in Coq)
+def resolved(case):
+    """{node path: [(opname, {var: (kind, value)}, eqs, out)]} with node-level overrides applied"""
+    res = {}
+    for path, nops in tree_nodes(case["tree"]):
+        l = []
+        for on, ov in nops:
+            o = case["ops"][on]
+            l.append((on, {vn: (kind, Fr(ov.get(vn, val))) for vn, kind, val in o["vars"]}, o["eqs"], o["out"]))
+        res[path] = l
+    return res
+
+def kind_of(case, vid):
+    path, on, vn = vid
+    for vn2, kind, _ in case["ops"][on]["vars"]:
+        if vn2 == vn:
+            return kind
+    return None
+
+def split_vid(s):
+    *n, o, v = s.split("/")
+    return ("/".join(n), o, v)
+
+def param_vars(case):
+    """constants, and input variables to which nothing connects"""
+    res = resolved(case)
+    edges = [(split_vid(s), split_vid(t), Fr(w)) for s, t, w in tree_edges(case["tree"])]
+    out = []
+    for path, l in res.items():
+        for on, vs, eqs, o in l:
+            for vn, (kind, val) in vs.items():
+                if kind == "const":
+                    out.append(f"{path}/{on}/{vn}")
+                elif kind == "input":
+                    prods = [1 for on2, _, _, o2 in l if o2 == vn]
+                    es = [1 for s, t, w in edges if t == (path, on, vn)]
+                    if not prods and not es:
+                        out.append(f"{path}/{on}/{vn}")
+    return out
+
+def is_vk_of(a, x):
+    return x.startswith(a + "_v") and len(x) > len(a) + 2 and x[len(a) + 2:].isdigit() and x[len(a) + 2:].isascii()
+
+def py_guard_names(case):
+    """mirror of Edges.guard_names (only steers the generator; classification is by the Coq guard)"""
+    edges = [(split_vid(s), split_vid(t)) for s, t, w in tree_edges(case["tree"])]
+    for t in dict.fromkeys(t for _, t in edges):
+        first = {}
+        for s, t2 in edges:
+            if t2 == t:
+                first.setdefault(s[0], s)
+        svars = [s[2] for s in first.values()]
+        k = len(svars)
+        B = [t[2], "weight"] + svars
+        if k >= 10 or t[2] in svars or "weight" in svars or t[2] == "weight":
+            return False
+        for x in B:
+            for z in B:
+                if is_vk_of(z, x) or any(x == f"{z}_in{j}" for j in range(k)):
+                    return False
+    return True
+
+def py_guard_labels(case):
+    """mirror of Edges.guard_labels"""
+    targets = {split_vid(t) for s, t, w in tree_edges(case["tree"])}
+    for path, nops in tree_nodes(case["tree"]):
+        outs = [case["ops"][on]["out"] for on, _ in nops]
+        for on, _ in nops:
+            vs = case["ops"][on]["vars"]
+            for v, kind, _ in vs:
+                if kind == "input" and (v in outs or (path, on, v) in targets):
+                    if any(is_vk_of(v, v2) for v2, _, _ in vs):
+                        return False
+    return True
+
+def py_guard_d3(case):
+    edges = [(split_vid(s), split_vid(t)) for s, t, w in tree_edges(case["tree"])]
+    seen = {}
+    for s, t in edges:
+        if seen.setdefault((t, s[0]), s) != s:
+            return False
+    return True
+
+def py_acyclic(case):
+    for path, nops in tree_nodes(case["tree"]):
+        ons = [on for on, _ in nops]
+        succ = {on: [] for on in ons}
+        for a in ons:
+            for b in ons:
+                out = case["ops"][a]["out"]
+                if out is not None and any(v[0] == out and v[1] == "input" for v in case["ops"][b]["vars"]):
+                    succ[a].append(b)
+        state = {}
+        def dfs(u):
+            state[u] = 1
+            for w in succ[u]:
+                if state.get(w) == 1 or (w not in state and dfs(w)):
+                    return True
+            state[u] = 2
+            return False
+        if any(on not in state and dfs(on) for on in ons):
+            return False
+    return True
+
+def py_wf(case):
+    if not py_acyclic(case):
+        return False
+    res = resolved(case)
+    if len(res) != len(tree_nodes(case["tree"])):
+        return False
+    if not any(kind == "state" for l in res.values() for _, vs, _, _ in l for kind, _ in vs.values()):
+        return False
+    for path, l in res.items():
+        if len({on for on, *_ in l}) != len(l):
+            return False
+    for on, o in case["ops"].items():
+        names = [v[0] for v in o["vars"]]
+        if len(set(names)) != len(names):
+            return False
+    return True
+
+class Inexact(Exception):
+    pass
+
+def py_eval(case, pt, d3=False):
+    """Spec (d3=False) or the mechanism with the merge-by-source-node behaviour (d3=True); returns {state var: derivative}"""
+    res = resolved(case)
+    edges = [(split_vid(s), split_vid(t), Fr(w)) for s, t, w in tree_edges(case["tree"])]
+    st = {k: Fr(v) for k, v in pt["state"].items()}
+    pa = {k: Fr(v) for k, v in pt["params"].items()}
+    memo, busy = {}, set()
+    def chk(x):
+        if x.denominator.bit_length() > 34 or abs(x.numerator).bit_length() > 44:
+            raise Inexact()
+        return x
+    def ev_poly(p, path, on):
+        tot = Fr(0)
+        for c, facs in p:
+            m = Fr(c)
+            for f in facs:
+                m = chk(m * value((path, on, f)))
+            tot = chk(tot + m)
+        return tot
+    def value(vid):
+        if vid in memo:
+            return memo[vid]
+        if vid in busy:
+            raise Inexact()
+        busy.add(vid)
+        path, on, vn = vid
+        l = res[path]
+        ent = [e for e in l if e[0] == on][0]
+        kind, dv = ent[1][vn]
+        key = "/".join(vid)
+        if kind == "state":
+            r = st[key]
+        elif kind == "const":
+            r = pa.get(key, dv)
+        elif kind == "alg":
+            eq = [e for e in ent[2] if e[0] == vn and not e[1]][0]
+            r = ev_poly(eq[2], path, on)
+        else:
+            prods = [(path, on2, vn) for on2, _, _, o2 in l if o2 == vn]
+            es = [(s, w) for s, t, w in edges if t == vid]
+            if not prods and not es:
+                r = pa.get(key, dv)
+            else:
+                r = Fr(0)
+                for p in prods:
+                    r = chk(r + value(p))
+                if d3:
+                    first = {}
+                    for s, w in es:
+                        first.setdefault(s[0], s)
+                    for s, w in es:
+                        r = chk(r + chk(w * value(first[s[0]])))
+                else:
+                    for s, w in es:
+                        r = chk(r + chk(w * value(s)))
+        busy.discard(vid)
+        memo[vid] = chk(r)
+        return r
+    out = {}
+    for path, l in res.items():
+        for on, vs, eqs, o in l:
+            for vn in vs:
+                value((path, on, vn))          # every variable must be defined (no algebraic loop anywhere)
+            for lhs, de, p in eqs:
+                if de:
+                    out[f"{path}/{on}/{lhs}"] = ev_poly(p, path, on)
+    return out
+
+def exact_ok(case):
+    try:
+        for pt in case["points"]:
+            py_eval(case, pt); py_eval(case, pt, d3=True)
+        return True
+    except Inexact:
+        return False
+
+# ---------------------------------------------------------------------------------------------- model side (Coq)
+HEADER = """From Coq Require Import List String ZArith QArith Qcanon Bool.
+From PV Require Import Expr Net Edges Corr.
+Import ListNotations.
+Open Scope string_scope.
+Definition V (a b c : string) : vid := (a, b, c).
+Definition D (x : string) (k : vkind) (q : Qc) : vdecl := {| vname := x; vk := k; vval := q |}.
+Definition Q (l : string) (de : bool) (p : poly) : eqn := {| lhs := l; is_de := de; rhs := poly_expr p |}.
+Definition E (s t : vid) (w : Qc) : edge := {| esrc := s; etgt := t; ew := w |}.
+Record obs := { o_circ : circuit; o_ny : nat; o_smap : list (vid * nat); o_vals : list (vid * Qc);
+                o_pts : list (list (vid * Qc) * list (vid * Qc) * list (vid * Qc)) }.
+Definition check_with (f : net -> (vid -> Qc) -> (vid -> Qc) -> vid -> option Qc) (o : obs) : bool :=
+  let n := flatten (o_circ o) in
+  layout_ok n (o_ny o) (o_smap o) && values_ok n (o_vals o) &&
+  forallb (fun p : list (vid * Qc) * list (vid * Qc) * list (vid * Qc) =>
+             let '(st, pa, dv) := p in
+             point_ok (f n (assoc_env st zero_env) (assoc_env pa (declared_env n))) dv) (o_pts o).
+Definition okS := check_with deriv.
+Definition okI := check_with deriv_impl.
+Definition net_of (o : obs) := flatten (o_circ o).
+"""
+
+def c_vid(s):
+    n, o, v = split_vid(s) if isinstance(s, str) else s
+    return f"(V {cstr(n)} {cstr(o)} {cstr(v)})"
+
+KIND = {"state": "VState", "const": "VConst", "input": "VInput", "alg": "VAlg"}
+
+def c_poly(p):
+    return clist([f"({cq(c)}, {clist([cstr(f) for f in fs])})" for c, fs in p])
+
+def c_oper(name, o):
+    vs = clist([f"D {cstr(v)} {KIND[k]} {cq(val)}" for v, k, val in o["vars"]])
+    eqs = clist([f"Q {cstr(l)} {cbool(de)} {c_poly(p)}" for l, de, p in o["eqs"]])
+    out = "None" if o["out"] is None else f"(Some {cstr(o['out'])})"
+    return f"{{| oname := {cstr(name)}; ovars := {vs}; oeqs := {eqs}; oout := {out} |}}"
+
+def c_circ(c, opref):
+    nodes = clist([f"({cstr(nm)}, {clist([f'({opref[on]}, ' + clist([f'({cstr(k)}, {cq(v)})' for k, v in ov.items()]) + ')' for on, ov in nops])})"
+                   for nm, nops in c["nodes"]])
+    subs = clist([f"({cstr(sn)}, {c_circ(sc, opref)})" for sn, sc in c["subs"]])
+    edges = clist([f"E {c_vid(s)} {c_vid(t)} {cq(w)}" for s, t, w in c["edges"]])
+    return f"(Circ {nodes} {subs} {edges})"
+
+def c_assoc(d):
+    return clist([f"({c_vid(k)}, {cq(v)})" for k, v in d.items()])
+
+def coq_case(idx, case, out):
+    """Definitions for one case; `out` is the real-code result (or an error dict: then nothing is observed)"""
+    lines, opref = [], {}
+    for j, (on, o) in enumerate(case["ops"].items()):
+        opref[on] = f"c{idx}_op{j}"
+        lines.append(f"Definition c{idx}_op{j} : oper := {c_oper(on, o)}.")
+    ok = isinstance(out, dict) and "outs" in out and all("err" not in o for o in out["outs"])
+    if ok:
+        user_vars = set()
+        for path, nops in tree_nodes(case["tree"]):
+            for on, _ in nops:
+                for v, k, _ in case["ops"][on]["vars"]:
+                    user_vars.add(f"{path}/{on}/{v}")
+        smap = clist([f"({c_vid(k)}, {cnat(p[0])})" for k, p in out["positions"].items()])
+        vals = {k: v[0] for k, v in out["declared"].items() if k in user_vars and len(v) == 1}
+        for k, p in out["positions"].items():
+            if p[1] - p[0] == 1 and k in user_vars:
+                vals[k] = out["y0"][p[0]]
+        pts = clist([f"({c_assoc(pt['state'])}, {c_assoc(pt['params'])}, {c_assoc(o)})" for pt, o in zip(case["points"], out["outs"])])
+        ny = out["ny"]
+    else:
+        smap, vals, pts, ny = "[]", {}, "[]", 0
+    lines.append(f"Definition c{idx} : obs := {{| o_circ := {c_circ(case['tree'], opref)}; o_ny := {cnat(ny)}; o_smap := {smap}; "
+                 f"o_vals := {c_assoc(vals)}; o_pts := {pts} |}}.")
+    return "\n".join(lines), ok
+
+def model_compare(ctx, cases, outs, tag):
+    """Evaluates Spec, Impl and the guards inside Coq.  Returns dict of index lists:
+       badS / badI: observed real-code values differ from Spec / Impl (only cases that produced values);
+       nwf: not well-formed; g_d3 / g_names / g_labels: guard false."""
+    res = dict(badS=[], badI=[], nwf=[], g_d3=[], g_names=[], g_labels=[])
+    shard = 25
+    for s in range(0, len(cases), shard):
+        body, observed = [], []
+        for i in range(s, min(s + shard, len(cases))):
+            txt, ok = coq_case(i - s, cases[i], outs[i])
+            body.append(txt); observed.append(ok)
+        k = len(observed)
+        body.append("Definition cases := " + clist([f"c{i}" for i in range(k)]) + ".")
+        body.append("Definition observed := " + clist([f"c{i}" for i in range(k) if observed[i]]) + ".")
+        body += ["Eval vm_compute in (mismatches okS observed).", "Eval vm_compute in (mismatches okI observed).",
+                 "Eval vm_compute in (mismatches (fun o => wf (net_of o)) cases).",
+                 "Eval vm_compute in (mismatches (fun o => guard_d3 (net_of o)) cases).",
+                 "Eval vm_compute in (mismatches (fun o => guard_names (net_of o)) cases).",
+                 "Eval vm_compute in (mismatches (fun o => guard_labels (net_of o)) cases)."]
+        o = coq_eval(ctx, f"c01_{tag}_{s}", HEADER, "\n".join(body))
+        ls = parse_nat_lists(o)
+        assert len(ls) == 6, o[:600]
+        obs_idx = [s + i for i in range(k) if observed[i]]
+        res["badS"] += [obs_idx[i] for i in ls[0]]; res["badI"] += [obs_idx[i] for i in ls[1]]
+        for name, l in zip(("nwf", "g_d3", "g_names", "g_labels"), ls[2:]):
+            res[name] += [s + i for i in l]
+    return res
+
+def model_outputs(ctx, case, out, tag):
+    txt, ok = coq_case(0, case, out)
+    n = "(net_of c0)"
+    body = [txt]
+    for j, pt in enumerate(case["points"][:2]):
+        env = f"(assoc_env {c_assoc(pt['state'])} zero_env) (assoc_env {c_assoc(pt['params'])} (declared_env {n}))"
+        body.append(f"Eval vm_compute in (map (fun v => (v, deriv {n} {env} v, deriv_impl {n} {env} v)) (state_vars {n})).")
+    body.append(f"Eval vm_compute in (wf {n}, guard_d3 {n}, guard_names {n}, guard_labels {n}).")
+    try:
+        return coq_eval(ctx, f"c01_show_{tag}", HEADER, "\n".join(body))[:8000]
+    except Exception as e:
+        return f"(model evaluation failed: {e})"
